@@ -58,7 +58,7 @@ def gen_case(run_seed: int, index: int, tier: str) -> dict:
     if big:
         shape = rng.choice([[1 << 20], [1024, 1024], [4096, 256], [16, 256, 256], [999, 1051], [333, 3001]])
     else:
-        shape = rng.choice([[1], [7], [64], [3, 5], [1, 9], [2, 3, 4], [2, 2, 2, 3], [1000], [37, 11]])
+        shape = rng.choice([[1], [7], [64], [3, 5], [1, 9], [9, 1], [2, 3, 4], [2, 2, 2, 3], [1000], [37, 11], [5, 1, 1], [2, 3, 1, 4]])
     dtype = rng.choice(["float32", "float32", "float64", "int64", "int32"] + (["bool"] if alphabet == "01" else []))
     p = rng.choice(PROBS) if rng.random() < 0.8 else round(rng.random(), 4)
     es = rng.choice([-1, -1, 2, 0.5, 7]) if alphabet == "01" else rng.choice([0, 0, 2, 0.5])
@@ -67,6 +67,8 @@ def gen_case(run_seed: int, index: int, tier: str) -> dict:
         "input": rng.choice(["random", "random", "random", "sparse", "dense", "all_one", "all_zero"]),
         "erasure_symbol": es, "torch_seed": rng.randrange(1 << 31), "data_seed": rng.randrange(1 << 31),
         "how": rng.choice(["class", "class", "registry"]), "p_as_tensor": rng.random() < 0.2,
+        "warmup": rng.choice([None, None, [3], [2, 5], [4, 1, 2]]),  # an earlier call on the same channel object, other shape
+        "noncontig": rng.random() < 0.25,
     }
 
 
@@ -120,8 +122,19 @@ def execute(case: dict) -> RunResult:
         res.violations.append(Violation(sig, f"C12/{name}: {msg} [p={case['p']}, alphabet={case['alphabet']}, dtype={case['dtype']}, shape={case['shape']}, input={case['input']}]"))
 
     x, ones = _input(case)  # ones: positions carrying the symbol that means binary 1
+    if case.get("noncontig") and x.dim() >= 2:
+        x = x.transpose(0, -1).contiguous().transpose(0, -1)  # same values, non-contiguous memory
+        res.probes["input.noncontiguous"] += 1
     x0 = x.clone()
     ch = _channel(case)
+    if case.get("warmup"):
+        w = torch.randint(0, 2, case["warmup"], generator=torch.Generator().manual_seed(case["data_seed"] ^ 0x33))
+        if case["alphabet"] == "pm1":
+            w = 2 * w - 1
+            w.reshape(-1)[0] = -1
+        torch.manual_seed(case["torch_seed"] ^ 0x1234)
+        ch(w.to(DT[case["dtype"]]))
+        res.faults["history.earlier_call_on_same_object"] += 1
     torch.manual_seed(case["torch_seed"])
     y = ch(x)
     log.add("output", y)
